@@ -1,9 +1,11 @@
 """C09 — merged files are valid and respect the line and dollar limits."""
 import merge_common as M
+import validout
 
 
 def run(ctx):
-    M.run(ctx, "C09", ["Props/C09.v"], ["Oblig/C08Obl.v", "Oblig/C09Obl.v"])
+    M.run(ctx, "C09", ["Props/C09.v", "Props/C09Valid.v"], ["Oblig/C08Obl.v", "Oblig/C09Obl.v", "Oblig/ValidMergeObl.v"])
+    validout.run(ctx, "merge")
 
 
 def replay(path):
